@@ -19,7 +19,7 @@ REPO = os.environ.get("VERIF_REPO", "/repo")
 VTIME_DIRS = ["agent/consul/state", "agent/consul/fsm", "agent/structs", "internal/storage/inmem", "internal/storage/raft", "agent/consul", "agent/consul/stream"]
 # packages whose "sync" import is rewritten to the scheduling shim (falls through to the real
 # primitives unless a schedule exploration is running)
-VSYNC_DIRS = ["internal/storage/inmem"]
+VSYNC_DIRS = ["internal/storage/inmem", "agent/consul/stream"]
 REWRITES = [
     (VTIME_DIRS, re.compile(r'^(\s*)"time"\s*$', re.M), r'\1time "github.com/hashicorp/consul/internal/verifmc/vtime"'),
     (VSYNC_DIRS, re.compile(r'^(\s*)"sync"\s*$', re.M), r'\1sync "github.com/hashicorp/consul/internal/verifmc/vsync"'),
